@@ -1,7 +1,7 @@
 // C12 — numerical derivatives are transparent and exact on low-degree polynomials
 // VF-VARIANT: san
 // VF-RULE: E2 "single": for each scheme, every (polynomial of the family, interval, cross on/off [three-point], evaluation point of the grid {lb, lb+h/2, lb+3h/2, mid, ub-3h/2, ub-h/2, ub}^constrained x {-1.5,0,0.75}^unconstrained) is run on a fresh wrapper with all variables selected, one full setParameters and every query; thorough adds every entry point (all variables selected) and every ordered non-empty selection of variables (interval 1e-4). E1 "hist": breadth-first over all operation histories (level 1 chooses polynomial x kind of wrapped function, later levels the operations setParameters / setParametersValues / matchParametersValues(+unknown name) / f() over every non-empty variable subset and value combination, setAllParametersValues, setParameterValue, setParametersToDerivate(every ordered subset), setInterval(1e-2,1e-4,1e-6), toggles of first/second/cross derivative computation), all queries after every operation, states de-duplicated on the complete concrete state. A case is non-trivial when the operation made the wrapper probe the wrapped function (at least one recorded evaluation away from the requested point) or changed the state.
-// VF-BOUND: polynomials: every monomial of total degree 0..5 in 1..3 variables (coefficients cycling 1,-2,3) + dense polynomials of degree 1..5 + x^2y+3y^2 (E2: 100 polynomials; E1: 2/3/2 (quick) or 4/3/4 (thorough) per arity) instead of random coefficients and 4 variables; intervals {1e-2,1e-4,1e-6}; boxes x in [-1,2], y in [0.5,3], z free; E1 values per variable: 5 (1 var) / 3 (2 vars) / 2 (3 vars) including on-bound and 5e-7 next to a bound; E1 history depth after the configuration level: quick 3/2/2, thorough 4/3/2 for 1/2/3 variables; wrapped function follows the library's own TestFunction idiom (setParameters = matchParametersValues)
+// VF-BOUND: polynomials: every monomial of total degree 0..5 in 1..3 variables (coefficients cycling 1,-2,3) + dense polynomials of degree 1..5 + x^2y+3y^2 (E2: 100 polynomials; E1: 2/3/2 (quick) or 4/3/4 (thorough) per arity) instead of random coefficients and 4 variables; intervals {1e-2,1e-4,1e-6}; boxes x in [-1,2], y in [0.5,3], z free; E1 values per variable: 5 (1 var) / 3 (2 vars) / 2 (3 vars) including on-bound and 5e-7 next to a bound; E1 history depth after the configuration level: quick 4/3/2, thorough 5/3/3 for 1/2/3 variables; wrapped function follows the library's own TestFunction idiom (setParameters = matchParametersValues)
 // VF-LEVEL: exhaustive over the stated finite alphabet on the real wrapper classes: transparency (position, value, last evaluation point) judged exactly, derivatives judged against analytic derivatives with a derived truncation+rounding bound (zero truncation where the scheme is exact), after every operation of every history up to the depth bound
 // VF-ASSUME: the harness polynomial class (evaluation, symbolic derivative, abs-polynomial bounds) is correct;; the wrapped harness function built on bpp::AbstractParametrizable/ParameterList/IntervalConstraint behaves as documented (those are C01/C02's subject);; floating-point arithmetic is IEEE double, rounding bound gamma_k with k = terms+7
 // VF-TECHNIQUE: bounded-exhaustive history exploration of the real classes against an analytic reference model
@@ -608,7 +608,7 @@ int main(int argc, char** argv) {
   vfh::silence();
   bool th = R.thorough();
   for (int s = 0; s < 3; ++s) single(R, s, 0);
-  for (int s = 0; s < 3; ++s) { hist(R, s, 1, th ? 4 : 3, th); hist(R, s, 2, th ? 3 : 2, false); hist(R, s, 3, 2, th); }
+  for (int s = 0; s < 3; ++s) { hist(R, s, 1, th ? 5 : 4, th); hist(R, s, 2, 3, false); hist(R, s, 3, th ? 3 : 2, th); }
   if (th) for (int s = 0; s < 3; ++s) { single(R, s, 1); single(R, s, 2); }
   R.expectSeen("d1:ok-next-to-bound");
   R.expectSeen("d1:ok-interior");
